@@ -764,8 +764,13 @@ func (p *Posix) deleteNullVersionIdObject(bucket, key string) error {
 	if errors.Is(err, fs.ErrNotExist) {
 		return nil
 	}
+	if err != nil {
+		return err
+	}
 
-	return err
+	// metadata stores that keep attributes outside the file would hand them
+	// to the next null version stored under this name
+	return p.meta.DeleteAttributes(p.genObjVersionPath(bucket, key), nullVersionId)
 }
 
 // Creates a new copy(version) of an object in the versioning directory
